@@ -101,6 +101,19 @@ fn main() {
             cleanup_scratch();
             r
         }
+        Some("stderr-gone-child") => {
+            // see fam_histw::execute_user, kind "stderr-gone": waits for a line, runs, reports on stdout
+            core::install_panic_hook();
+            let mut line = String::new();
+            let _ = std::io::stdin().read_line(&mut line);
+            let mut ctx = core::Ctx::new();
+            let r = core::guarded(|| fam_wfault::stderr_gone_child(&mut ctx));
+            if let Err(p) = r {
+                ctx.fails.push(core::Fail { prop: "HARNESS".into(), clause: "escaped-panic".into(), site: p.site(), detail: p.text() });
+            }
+            println!("F {}", serde_json::to_string(&ctx.fails).unwrap());
+            0
+        }
         Some("replay") => orch::cmd_replay(&PathBuf::from(args.get(2).cloned().unwrap_or_default())),
         _ => {
             eprintln!("usage: shpsim check <ID> [--tier quick|thorough] | replay <file>");
